@@ -283,6 +283,11 @@ def run(chk, only=None):
                 scheds += pipe_tlc.run_gen(chk, sc, choice_set="gen", max_compiles=g["compiles"], procs=g["procs"],
                                            seeds=("0",), part="schedule-generator", constraints=g.get("constraints", ()))
             chk.extra["schedules_generated"] = len(scheds)
+            scale = float(os.environ.get("VERIF_C17_SCALE", "1") or 1)   # development aid: replay a sample only
+            if scale < 1:
+                step = max(1, int(round(1 / scale)))
+                scheds = scheds[chk.seed % step::step]
+                chk.extra["schedules_replayed_sample"] = len(scheds)
             jobs = [schedule_job(i, s, paths, "0") for i, s in enumerate(scheds)]
             jobs1 = [schedule_job(i, s, paths, "1") for i, s in enumerate(scheds)]
             for s in scheds[:2]:
@@ -365,3 +370,34 @@ def run(chk, only=None):
                                "cli": cli_inputs.get(v.get("tid"))}
                 chk.violation(key, "%s [%s]: compilation %s versus %s" % (clause, v.get("input") or site, v.get("tid"), v.get("against")),
                               payload)
+
+
+def replay(chk, path):
+    """Re-run the source set named in a replay file as fresh `embossc` processes under hash seeds 0..3 and
+    through both import-directory orders where that applies; Pure is judged again by TLC."""
+    with open(path) as f:
+        rp = json.load(f)
+    case = rp.get("case") or {}
+    src = (case.get("source_set") or "").split(":", 1)[-1]
+    main = src.split("|")[0]
+    if main not in WHAT:
+        raise MachineryError("replay file does not name a source set")
+    s_text = src.split("|s=")[1].split("|")[0] if "|s=" in src else "tS1"
+    dirs = ["d2", "d1"] if s_text == "tS2" else ["d1"]
+    view = {"s": s_text, "main": main}
+    with Scratch("c17r") as sc:
+        paths = build_fs(sc.sub("fs"))
+        steps = [{"main": main, "dirs": dirs, "mode": m, "seed": sd, "view": view}
+                 for sd in ("0", "1", "2", "3") for m in ("inproc", "split")]
+        res = run_parallel([(lambda i=i, s=s: run_cli(sc, paths, i, s)) for i, s in enumerate(steps)], nproc=pipe_tlc.max_par(4))
+        stream = sc.file("cli.ndjson")
+        with open(stream, "w") as f:
+            for evs, _info in res:
+                for e in evs:
+                    f.write(json.dumps(e) + "\n")
+        verdicts, _ = pipe_tlc.validate_streams(chk, sc, [stream], part="replay")
+        chk.traces = len(res)
+        for v in verdicts:
+            for clause, site in v["clauses"]:
+                chk.violation(pipe_tlc.key_of(clause, site, v.get("input", "")),
+                              "%s [%s]: %s versus %s" % (clause, v.get("input"), v.get("tid"), v.get("against")), case)
